@@ -53,10 +53,13 @@ def get_generic_type_param(cls, generic_base):
     Example:
         get_generic_type_param(Employee, Role) -> (<class '__main__.Person'>,)
     """
-    for base in getattr(cls, "__orig_bases__", []):
-        base_origin = get_origin(base)
-        if base_origin is None:
-            continue
-        if issubclass(get_origin(base), generic_base):
-            return get_args(base)
+    # the class itself first, then its ancestors: a subclass that adds another generic base has an __orig_bases__ of
+    # its own that does not mention the generic base of its parent
+    for klass in getattr(cls, "__mro__", (cls,)):
+        for base in vars(klass).get("__orig_bases__", ()):
+            base_origin = get_origin(base)
+            if base_origin is None:
+                continue
+            if issubclass(base_origin, generic_base):
+                return get_args(base)
     return None
